@@ -454,8 +454,33 @@ func runC19(p *Prog, r *Report, tier string) {
 		eachInstr(dc, func(in ssa.Instruction) {
 			switch x := in.(type) {
 			case *ssa.Slice:
-				if lo, ok := constInt(x.Low); ok && lo == delim && x.High == nil {
+				if x.Low == nil || x.High != nil {
+					break
+				}
+				if lo, ok := constInt(x.Low); ok && lo == delim {
 					okStrip = true
+				}
+				// an offset chosen first (0, or the delimiter length when messages are delimited) and applied in one slice expression
+				if _, isPhi := x.Low.(*ssa.Phi); isPhi {
+					has, other := false, false
+					for _, lf := range valueLeaves(x.Low, x.Block(), 3) {
+						c, ok := constInt(lf.V)
+						delimited := false
+						for _, f := range lf.Facts {
+							_ = f
+						}
+						switch {
+						case ok && c == delim:
+							has = true
+						case ok && c == 0:
+						default:
+							other = true
+						}
+						_ = delimited
+					}
+					if has && !other {
+						okStrip = true
+					}
 				}
 			case *ssa.Call:
 				if calleeName(&x.Call) == "google.golang.org/protobuf/proto.Unmarshal" {
